@@ -8,13 +8,13 @@ DONE = {
          "Exploration: thousands of generated point sets (13 families incl. degenerate ones, 1D/2D/3D, periodic or not, anisotropic boxes, large offsets), every cell compared in both directions with an independent brute-force Voronoi cell (volume, centroid, complete face map with neighbour identity / shift / area / centroid, vertices). A second stream (n to 300 / 1200) compares every cell of the tessellation with that of the relabelled / reflected / axis-permuted / power-of-two-scaled input through the transform. Finds missing or spurious neighbours, wrong security radius / termination / image enumeration; cannot establish absence.",
          "Trusted: the harness' reference model (validated by `mvv selftest` against direct nearest-site queries), the tolerance policy (8x measured variation under input rounding + 2^14 u L kappa floor). Exempt: faces/vertices of cells with an ill-conditioned vertex, face areas in 1D/2D for coordinates > 1e10 (known findings), inputs whose arrangement is not determined up to rounding.", "5 C01, 4"),
  "C02": ("property-based invariant testing (proptest, sharded): positivity and tiling of the box, three integration routes",
-         "Exploration: generated point sets up to 1500 (quick) / 4000 (thorough) generators over all families, dimensionalities, boundary kinds, aspect ratios to 2^14 and offsets to 2^30; oracle = a-priori identity sum(V_i) = box measure with a rounding bound that does not use the library's faces.",
+         "Exploration: generated point sets up to 600 (quick) / 4000 (thorough) generators over all families plus 1 % density-contrast inputs (a clump of 1200..3000 / 8000 generators next to a few big cells), dimensionalities, boundary kinds, aspect ratios to 2^14 and offsets to 2^30; oracle = a-priori identity sum(V_i) = box measure with a rounding bound that does not use the library's faces.",
          "Trusted: tolerance model (eps_pos * kappa * surface of the safety ball + snapping uncertainty of close pairs).", "5 C02"),
  "C03": ("property-based all-pairs reciprocity check on the non-symmetric face integrals + structural check of the compact face list (proptest, sharded)",
          "Exploration: generated inputs x masks up to n = 600/1500; every face seen from cell i is joined with the face seen from cell j (exact negated shift, equal area / shifted centroid up to rounding, opposite plane normals); storage multiplicity in the compact tessellation; antisymmetric flux cancellation.",
          "Trusted: tolerance from the library's own conditioning (eps_pos * kappa + snapping of close pairs). Exempt: pairs involving an ill-conditioned cell, 1D/2D at coordinates > 1e10, unresolvable arrangements.", "5 C03"),
  "C04": ("property-based invariant testing: orientation of every stored normal, wall normals, centroid on the bisector, closure and divergence identities per cell (proptest, sharded)",
-         "Exploration: generated inputs x masks up to n = 400/1500, all dimensionalities; identities hold for every constructed cell of every generated tessellation.",
+         "Exploration: generated inputs x masks up to n = 400/1500 (plus shell inputs with hundreds of faces per cell and density-contrast inputs with a clump of 1200..3000 / 6000 generators), all dimensionalities; identities hold for every constructed cell of every generated tessellation, also through the with-faces route in 3D; for ill-conditioned cells the closure of the cell's own face integrals is still checked.",
          "Trusted: tolerance from the library's own conditioning; negligible faces (area <= 1e-9 of the face scale) are left out of the sums with a bound on their contribution. Same exemptions as C03.", "5 C04"),
  "C06": ("property-based differential testing (periodic vs the library's non-periodic mode on the 3^d-fold replicated input) + metamorphic translation + structural shift checks (proptest, sharded); thorough tier adds a coverage-guided libFuzzer campaign (cargo-fuzz target fz_c06, 16 jobs x 40 000 executions) on the same oracle",
          "Exploration: periodic inputs n = 1..24 (n = 1, 2 emphasised) in all dimensionalities and box shapes, random and seam-aligned translations.",
@@ -23,7 +23,7 @@ DONE = {
          "Exploration with an exhaustively enumerated sub-space: random (input, mask) pairs up to n = 200/400 and ALL 2^n masks of small inputs (n <= 6 quick, <= 10 thorough); oracle = the full build of the same input (bitwise for cell values, set equality for faces, bookkeeping rules for selected/unselected faces).",
          "Trusted: the full build as the reference for the partial one (its own correctness is C01).", "5 C07"),
  "C12": ("property-based model checking of the index structure against a model rebuilt from faces() (proptest, sharded); thorough tier adds a coverage-guided libFuzzer campaign (cargo-fuzz target fz_c12, 16 jobs x 100 000 executions) on the same oracle",
-         "Exploration: generated inputs x masks x both construction routes up to n = 600/2000; oracle = the expected connectivity rebuilt from the face list alone (prefix sums, exact membership, duplicate freedom, neighbour iterator incl. unconstructed cells).",
+         "Exploration: generated inputs x masks x three construction routes (direct, Voronoi::from(&integrator), in 3D Voronoi::from(&integrator.with_faces())) up to n = 600/2000; oracle = the expected connectivity rebuilt from the face list alone (prefix sums, exact membership, duplicate freedom, neighbour iterator incl. unconstructed cells).",
          "Trusted: faces() left/right/shift as ground truth for the model (their correctness is C01/C03).", "5 C12"),
  "C13": ("property-based differential testing, bitwise (proptest, sharded); thorough tier adds a coverage-guided libFuzzer campaign (cargo-fuzz target fz_c13, 16 jobs x 60 000 executions) on the same oracle",
          "Exploration: generated inputs x masks, both routes and all built-in integrals compared bit for bit (canonical dump), ordered-list relation between symmetric and non-symmetric face integrals, with/without stored faces up to rounding.",
@@ -35,19 +35,19 @@ DONE = {
          "Exploration with exhaustively enumerated sub-spaces: all 5-tuples of the 2x2x2 grid at three offsets (quick), 3x3x3 at two offsets (thorough); random 52-bit tuples; exactly co-spherical quintuples and +-1 perturbations scaled up to 2^48; grid map: generators of generated boxes, all periodic images and mirror images, neighbours one ulp apart, in release and debug-assertion builds.",
          "Trusted: the harness' Bareiss determinant over num-bigint (cross-checked by the geometric circumcentre reading and on small grids by i128).", "5 C10"),
  "C19": ("property-based testing of defining equations over generated asymmetric, well-conditioned arguments (proptest, sharded)",
-         "Exploration: tens of thousands (quick) / millions (thorough) of generated planes, points, tetrahedra, triangles, spheres with magnitudes 1e-3..1e6 and deliberately asymmetric coordinates; every exported helper checked against its defining equation.",
+         "Exploration: tens of thousands (quick) / millions (thorough) of generated planes, points, tetrahedra, triangles, spheres with magnitudes 1e-3..1e6 and deliberately asymmetric coordinates; every exported helper checked against its defining equation; extend also on single-point (radius exactly 0) and two-point spheres, three-point spheres also on thin triangles (smallest angle down to 1e-8 rad, tolerance 1e-12 / sin(theta)).",
          "Trusted: tolerances scaled by magnitude and conditioning (stated in the rule).", "5 C19"),
  "C17": ("property-based model testing: the drained candidate iterator (hook nn_sequence) against the model 'sort all images by distance' (proptest, sharded)",
          "Exploration: point sets of 1..2500 (quick) / 10^4 (thorough) generators (uniform, clustered, lattices with many equidistant candidates, boundary, ...), all dimensionalities and box shapes, periodic or not, 4-6 query generators per set incl. first/last/closest to the seam; completeness as exact multiset equality, order up to rounding of the heap keys, shift encoding bitwise.",
          "Trusted: the hook returns the very iterators ConvexCell::build consumes (thin wrapper, see verif_hooks.rs); order tolerance 8 u L on positions.", "5 C17"),
  "C16": ("property-based testing: bound against the brute-force reference cell + history/metamorphic relation (append generators outside the safety ball in batches, rebuild, compare the cell) (proptest, sharded); thorough tier adds a coverage-guided libFuzzer campaign (cargo-fuzz target fz_c16, 16 jobs x 20 000 executions) on the same oracle",
-         "Exploration: thousands of generated inputs (n to 120 quick / 300 thorough, all dimensionalities, periodic or not, anisotropic boxes); per input the vertex bound for every cell, the brute-force bound for up to 4 cells, and one history of 1..20 additions in 1..3 batches placed by construction just outside (1.0..1.5 radii) or anywhere outside the safety ball.",
+         "Exploration: thousands of generated inputs (n to 120 quick / 300 thorough, all dimensionalities, periodic or not, anisotropic boxes); per input the vertex bound for every cell, the brute-force bound for up to 4 cells, and one history of 1..20 additions in 1..3 batches placed by construction just outside (1.0..1.5 radii) or anywhere outside the safety ball; the vertex bound is applied to the radius reported through every entry point (Voronoi::build, Voronoi::from of either integrator, cells with stored faces, with_faces().discard_faces()).",
          "Trusted: the harness' reference model (C01), the conditioning-derived tolerance for 'unchanged up to rounding'. Over-estimates of the radius are legal and never flagged.", "5 C16"),
  "C18": ("property-based testing over histories with exhaustive enumeration of storage orders: all r! orders of the removed vertices for r <= 7 (sampled above), all permutations of small vertex arrays, random rotations of every plane triple, replayed clip histories (proptest, sharded; hook cell_clip = ConvexCell::clip_by_plane)",
-         "Exploration with exhaustively enumerated sub-spaces: thousands of reachable cells (box + first K <= 12 candidates of the production iterator) x a further plane; about 10^6 (quick) permuted clips; for every cell with <= 7 removed vertices all storage orders of the removed set are executed.",
+         "Exploration with exhaustively enumerated sub-spaces: thousands of reachable cells (box + first K <= 12 candidates of the production iterator) x a further plane; about 10^6 (quick) permuted clips; for every cell with <= 7 removed vertices all storage orders of the removed set are executed; 2 % ring inputs (a generator inside a ring of 12..130 coplanar neighbours) give single clips that remove up to 130 vertices (sampled orders).",
          "Trusted: canonical form = rotation-normalised cyclic plane triples; volume tolerance from the conditioning of the result. exhaustive only within the stated sub-space (orders of <= 7 removed vertices per generated cell).", "5 C18"),
  "C20": ("property-based model testing: Space::knn against a brute-force sort with exact tie handling; bounding spheres against containment predicates and a brute-force minimum over all 2-, 3-, 4-point support sets (proptest, sharded; hooks space_knn, welzl, epos6, epos6_spheres)",
-         "Exploration: thousands of generated boxes (aspect to 2^4 quick / 2^6 thorough, offsets to 2^20 widths), grids of 1..16/40 cells per axis or one cell, particle sets n = 1..400/600 (uniform, clustered, exact lattices, thin slabs), k in {0, 1, n-1, any}; every particle's list compared rank by rank; Welzl minimality for n <= 14, containment for Welzl (n <= 60), Epos6 and Epos6 spheres-of-spheres.",
+         "Exploration: thousands of generated boxes (aspect to 2^4 quick / 2^6 thorough, offsets to 2^20 widths), grids of 1..16/40 cells per axis or one cell, particle sets n = 1..400/600 (uniform, clustered, exact lattices, thin slabs), k in {0, 1, n-1, any}, 1 case in 16 with coincident particles; every particle's list compared rank by rank; Welzl minimality for n <= 14, containment for Welzl (n <= 60), Epos6 and Epos6 spheres-of-spheres.",
          "Trusted: brute-force oracles of the harness. Welzl failures on sets with (nearly) degenerate support (structural predicate on the input: exact lattice, exactly collinear / coplanar subsets, pairs closer than 1e-3 of the extent) are the known finding welzl-degenerate-support (run through the full oracle, counted, never a verdict); Welzl::bounding_sphere_of_spheres is unimplemented!() by design.", "5 C20"),
  "C05": ("property-based testing on degenerate-weighted generated inputs in release and debug-assertion builds: totality (no panic), finiteness, and the unchanged oracles of C01-C04 on the same results; hook counter proves the exact predicate ran",
          "Exploration: 12 000 (quick) / 400 000 (thorough) generated degenerate inputs per build profile, thorough also a libFuzzer campaign (fz_tess, 16 x 100 000 executions) (exact / perturbed lattices, wall / edge / corner points, co-spherical, collinear, coplanar, dyadic, shared-coordinate, clusters to 1e-12, n = 1, 2; plus lattices in far-from-origin boxes perturbed at the level of the coordinate rounding), masks mixed, all dimensionalities, periodic or not.",
